@@ -41,7 +41,7 @@ Definition convB (b : W.oblock) : M.block :=
   end.
 Definition plain (b : W.oblock) : Prop := match b with W.BOther _ _ => False | _ => True end.
 Definition point_ok (pt : W.mpoint) : Prop :=
-  match pt with W.Defined s b n => s < M.U64_MAX /\ b < 2 ^ 64 /\ n < 2 ^ 16 | W.Placeholder => True end.
+  match pt with W.Defined s b n => s < 2 ^ 64 /\ b < 2 ^ 64 /\ n < 2 ^ 16 | W.Placeholder => True end.
 Definition points_ok (b : W.oblock) : Prop := match b with W.BSeekTable pts => Forall point_ok pts | _ => True end.
 Definition seektables (l : list W.oblock) : nat := length (filter W.is_seektable l).
 
@@ -143,21 +143,21 @@ Proof.
   change (2 ^ 64 - 1) with M.U64_MAX. reflexivity.
 Qed.
 
-Lemma seekpoints_agree : forall pts last, W.seektable_ok last pts = true -> Forall point_ok pts ->
+Lemma seekpoints_agree : forall pts last, W.seektable_ok last pts = true ->
   M.write_seekpoints last (map convP pts) = Ok (flat_map W.ser_point pts) /\
   M.check_seekpoints last (map convP pts) = Ok tt.
 Proof.
-  induction pts as [|pt pts IH]; intros last Hok Hp; [split; reflexivity|].
-  apply Forall_cons_iff in Hp. destruct Hp as [Hpt Hps].
+  induction pts as [|pt pts IH]; intros last Hok; [split; reflexivity|].
   cbn [map M.write_seekpoints M.check_seekpoints flat_map W.seektable_ok] in *.
   destruct pt as [s b n|]; cbn [convP] in *.
-  - destruct Hpt as (Hs & _ & _). destruct (N.eqb_spec s M.U64_MAX) as [E|_]; [lia|].
-    destruct last as [lo|].
-    + apply andb_prop in Hok. destruct Hok as [Hlt Hok]. rewrite Hlt.
-      destruct (IH (Some s) Hok Hps) as [A B]. rewrite A, B. cbn [bind]. rewrite <- (point_agree (W.Defined s b n)). split; reflexivity.
-    + destruct (IH (Some s) Hok Hps) as [A B]. rewrite A, B. cbn [bind]. rewrite <- (point_agree (W.Defined s b n)). split; reflexivity.
+  - change M.U64_MAX with W.U64_MAX. destruct last as [lo|].
+    + apply andb_prop in Hok. destruct Hok as [Hne Hok]. apply andb_prop in Hok. destruct Hok as [Hlt Hok].
+      destruct (s =? W.U64_MAX); [discriminate|]. rewrite Hlt.
+      destruct (IH (Some s) Hok) as [A B]. rewrite A, B. cbn [bind]. rewrite <- (point_agree (W.Defined s b n)). split; reflexivity.
+    + apply andb_prop in Hok. destruct Hok as [Hne Hok]. destruct (s =? W.U64_MAX); [discriminate|].
+      destruct (IH (Some s) Hok) as [A B]. rewrite A, B. cbn [bind]. rewrite <- (point_agree (W.Defined s b n)). split; reflexivity.
   - assert (Hok' : W.seektable_ok last pts = true) by (destruct last; exact Hok).
-    destruct (IH last Hok' Hps) as [A B]. rewrite A, B. cbn [bind]. rewrite <- (point_agree W.Placeholder). split; reflexivity.
+    destruct (IH last Hok') as [A B]. rewrite A, B. cbn [bind]. rewrite <- (point_agree W.Placeholder). split; reflexivity.
 Qed.
 
 (* ---- one block ---- *)
@@ -184,7 +184,7 @@ Proof.
   - destruct (W.seektable_ok None pts) eqn:Eok; [|discriminate]. cbn [bind] in H. rewrite flat_map_points_length in H.
     destruct (W.ser_header last 3 (N.of_nat (18 * length pts))) as [h| |] eqn:Eh; try discriminate. cbn [bind] in H. injection H as <-.
     destruct (header_agree last M.TSeekTable 3 _ h ltac:(auto) Eh) as [Hh Hs].
-    destruct (seekpoints_agree pts None Eok Hpt) as [A B].
+    destruct (seekpoints_agree pts None Eok) as [A B].
     unfold M.write_block. cbn [M.body_size M.write_body M.block_type]. unfold M.write_seektable. rewrite B. cbn [bind].
     rewrite lenN_map_convP.
     replace (18 * N.of_nat (length pts)) with (N.of_nat (18 * length pts)) by lia.
@@ -255,7 +255,7 @@ Proof.
     split; [|exact I]. cbn [FlacMeta.Blocks_level.ty_block]. unfold FlacMeta.Blocks_proofs.ty_seektable. split; [|split].
     + apply Forall_forall. intros sp Hin. apply in_map_iff in Hin. destruct Hin as (pt & <- & Hin).
       cbn [points_ok] in Hpt. rewrite Forall_forall in Hpt. specialize (Hpt pt Hin). destruct pt as [s0 b0 n0|]; cbn [convP FlacMeta.Blocks_proofs.ty_seekpoint point_ok] in *; [|exact I].
-      destruct Hpt as (A & B & C). unfold M.U64_MAX in A. change (2 ^ 64) with 18446744073709551616 in B. change (2 ^ 16) with 65536 in C. lia.
+      destruct Hpt as (A & B & C). change (2 ^ 64) with 18446744073709551616 in A, B. change (2 ^ 16) with 65536 in C. lia.
     + cbn [contiguous_ok] in Hc. destruct pts as [|p0 pts]; [reflexivity|]. cbn [map M.is_contiguous W.is_contiguous] in *.
       unfold M.seekpoint_valid_first. cbn [andb]. rewrite contiguous_from_agree. exact Hc.
     + rewrite lenN_map_convP. unfold W.BLOCKSIZE_MAX, M.SEEK_MAX_POINTS in *. lia.
